@@ -617,6 +617,9 @@ fn fixed() -> Vec<(Layout, Vec<(Vec<u8>, Vec<u8>, Vec<u8>)>)> {
         (b("/R/bare/refs/heads"), b("../.."), b("")),
         (b("/R/.git"), b("."), b("")),
         (b("/R/.git/refs"), b(".."), b("/R")),
+        // the ceiling is the parent of an empty `.git` directory: the repository one level further up stays hidden (fix 9581cf3f5)
+        (b("/R"), b("/R/deep/d e/deep/.git"), b("/R/deep/d e/deep")),
+        (b("/R/deep/d e/deep"), b(".git"), b("/R/deep:/R/deep/d e/deep/.git:/R/deep/d e/deep")),
     ];
     vec![(l1, q1), (l2, q2)]
 }
